@@ -1,4 +1,6 @@
-Require Import V.Lib V.C10_Model.
+Require Import V.Lib V.GoPath V.C10_Model.
+From Coq Require Import Lia ZArith List Bool.
+Import ListNotations.
 Open Scope N_scope.
 
 (* ---------- printing tokens ---------- *)
@@ -159,3 +161,1024 @@ Proof.
   - rewrite <- (map_map snd (fun x => x)), map_id. apply map_snd_combine_eq. exact Hlen.
   - rewrite <- (map_map fst (fun x => x)), map_id. apply map_fst_combine_eq. exact Hlen.
 Qed.
+
+(* ================= parser: positions in the token list ================= *)
+Definition at_pos (st : pst) (pre : list token) (x : token) (rest : list token) : Prop :=
+  p_tokens st = pre ++ x :: rest /\ p_cursor st = Z.of_nat (length pre).
+
+Lemma nth_error_mid {A} (pre : list A) x rest : nth_error (pre ++ x :: rest) (length pre) = Some x.
+Proof. rewrite nth_error_app2 by lia. rewrite Nat.sub_diag. reflexivity. Qed.
+
+Lemma tok_at_pos st pre x rest : at_pos st pre x rest -> tok_at st (p_cursor st) = Some x.
+Proof.
+  intros [Ht Hc]. unfold tok_at. rewrite Hc, Ht.
+  destruct (Z.of_nat (length pre) <? 0)%Z eqn:E; [apply Z.ltb_lt in E; lia|].
+  rewrite Nat2Z.id. apply nth_error_mid.
+Qed.
+Lemma pval_pos st pre x rest : at_pos st pre x rest -> pval st = t_text x.
+Proof. intros H. unfold pval. rewrite (tok_at_pos _ _ _ _ H). reflexivity. Qed.
+
+Lemma plen_pos st pre x rest : at_pos st pre x rest -> plen st = (Z.of_nat (length pre) + 1 + Z.of_nat (length rest))%Z.
+Proof. intros [Ht _]. unfold plen. rewrite Ht, app_length. cbn [length]. lia. Qed.
+
+Lemma p_next_more st pre x y rest : at_pos st pre x (y :: rest) ->
+  p_next st = (true, set_cursor st (p_cursor st + 1)) /\ at_pos (set_cursor st (p_cursor st + 1)) (pre ++ [x]) y rest.
+Proof.
+  intros H. pose proof (plen_pos _ _ _ _ H) as Hl. destruct H as [Ht Hc]. cbn [length] in Hl.
+  unfold p_next. destruct (p_cursor st <? plen st - 1)%Z eqn:E; [|apply Z.ltb_ge in E; lia].
+  split; [reflexivity|]. split; cbn [set_cursor p_tokens p_cursor].
+  - rewrite Ht, <- app_assoc. reflexivity.
+  - rewrite Hc, app_length. cbn [length]. lia.
+Qed.
+Lemma p_next_end st pre x : at_pos st pre x [] -> p_next st = (false, st).
+Proof.
+  intros H. pose proof (plen_pos _ _ _ _ H) as Hl. destruct H as [Ht Hc]. cbn [length] in Hl.
+  unfold p_next. destruct (p_cursor st <? plen st - 1)%Z eqn:E; [apply Z.ltb_lt in E; lia|reflexivity].
+Qed.
+
+Lemma is_new_line_pos st pre w x rest : at_pos st (pre ++ [w]) x rest -> is_new_line st = next_on_new_line w x.
+Proof.
+  intros H. pose proof (plen_pos _ _ _ _ H) as Hl. pose proof (tok_at_pos _ _ _ _ H) as Hx.
+  destruct H as [Ht Hc]. rewrite app_length in Hc, Hl. cbn [length] in Hc, Hl.
+  unfold is_new_line.
+  destruct (p_cursor st <? 1)%Z eqn:E1; [apply Z.ltb_lt in E1; lia|].
+  destruct (p_cursor st >? plen st - 1)%Z eqn:E2; [apply Z.gtb_lt in E2; lia|].
+  rewrite Hx.
+  assert (Hw : tok_at st (p_cursor st - 1) = Some w).
+  { unfold tok_at. destruct (p_cursor st - 1 <? 0)%Z eqn:E3; [apply Z.ltb_lt in E3; lia|].
+    rewrite Ht, Hc. replace (Z.to_nat (Z.of_nat (length pre + 1) - 1)) with (length pre) by lia.
+    rewrite <- app_assoc. cbn [app]. apply nth_error_mid. }
+  rewrite Hw. reflexivity.
+Qed.
+Lemma is_new_line_first st x rest : at_pos st [] x rest -> is_new_line st = true.
+Proof. intros [_ Hc]. unfold is_new_line. cbn [length] in Hc. rewrite Hc. reflexivity. Qed.
+
+Lemma set_tok_text_pos st pre x rest txt : at_pos st pre x rest ->
+  p_tokens (set_tok_text st (p_cursor st) txt) = pre ++ retext x txt :: rest.
+Proof.
+  intros [Ht Hc]. cbn [set_tok_text p_tokens]. rewrite Hc, Nat2Z.id, Ht.
+  rewrite firstn_app, Nat.sub_diag, firstn_all, skipn_app, Nat.sub_diag, skipn_all.
+  cbn [firstn skipn app]. rewrite app_nil_r. reflexivity.
+Qed.
+
+(* ================= parser: execution lemmas on well-formed input ================= *)
+Definition st_with (st : pst) (toks : list token) (c : Z) (bt : list (bytes * list token)) : pst :=
+  {| p_tokens := toks; p_cursor := c; p_keys := p_keys st; p_btoks := bt; p_eof := p_eof st;
+     p_snips := p_snips st; p_imports := p_imports st |}.
+
+Lemma st_with_eta st : st = st_with st (p_tokens st) (p_cursor st) (p_btoks st).
+Proof. destruct st; reflexivity. Qed.
+
+Section Exec.
+Variable env : list (bytes * bytes).
+Variable maxi : N.
+Variable globs : list ((N * bytes) * list N).
+Variable files : list (N * option (list token)).
+
+Definition exp_tok (t : token) : token := retext t (renv env (t_text t)).
+Definition push_all (m : list (bytes * list token)) (dir : bytes) (ts : list token) :=
+  fold_left (fun m t => add_btok m dir t) ts m.
+
+(* the remainder [seg] of a directive line after the token [prev] (as it stands in the token list),
+   at brace depth [nest]: braces balance, a token at depth 0 is on the line of its predecessor, a
+   closing brace never comes at depth 0 and no token inside a sub-block is an `import` at the start
+   of a line *)
+Fixpoint line_ok (prev : token) (seg : list token) (nest : Z) : bool :=
+  match seg with
+  | [] => (nest =? 0)%Z
+  | x :: r =>
+    if beq (t_text x) LBRACE then line_ok (exp_tok x) r (nest + 1)
+    else if next_on_new_line prev x && (nest =? 0)%Z then false
+    else if beq (t_text x) RBRACE then (0 <? nest)%Z && line_ok (exp_tok x) r (nest - 1)
+    else if beq (t_text x) IMPORT && next_on_new_line prev x then false
+    else line_ok (exp_tok x) r nest
+  end.
+
+(* what follows a directive line: nothing, or a token that starts a new line and is not `{` *)
+Definition post_ok (prev : token) (post : list token) : Prop :=
+  match post with
+  | [] => True
+  | u :: _ => beq (t_text u) LBRACE = false /\ next_on_new_line prev u = true
+  end.
+
+Lemma dloop : forall seg pre cur post fuel dir nest st,
+  at_pos st pre cur (seg ++ post) ->
+  line_ok cur seg nest = true ->
+  (length seg < fuel)%nat ->
+  post_ok (last (map exp_tok seg) cur) post ->
+  directive_loop env maxi globs files fuel st dir nest =
+  POk (st_with st (pre ++ cur :: map exp_tok seg ++ post) (Z.of_nat (length pre + length seg))
+               (push_all (p_btoks st) dir (map exp_tok seg))).
+Proof.
+  induction seg as [|x r IH]; intros pre cur post fuel dir nest st Hpos Hok Hfuel Hpost.
+  - cbn [line_ok] in Hok. apply Z.eqb_eq in Hok. subst nest.
+    destruct fuel as [|f]; [cbn in Hfuel; lia|]. cbn [directive_loop app map length push_all fold_left last] in *.
+    destruct post as [|u post'].
+    + rewrite (p_next_end _ _ _ Hpos). cbn [negb]. change (0 <? 0)%Z with false. cbn iota.
+      destruct Hpos as [Ht Hc]. rewrite (st_with_eta st) at 1. rewrite Ht, Hc, Nat.add_0_r. reflexivity.
+    + destruct (p_next_more _ _ _ _ _ Hpos) as [Hn Hpos1]. rewrite Hn. cbn [negb].
+      destruct Hpost as [Hu Hnl].
+      rewrite (pval_pos _ _ _ _ Hpos1), Hu, (is_new_line_pos _ _ _ _ _ Hpos1), Hnl.
+      cbn [andb]. change (0 =? 0)%Z with true. cbn iota.
+      destruct Hpos as [Ht Hc]. f_equal. unfold st_with, set_cursor. cbn [p_tokens p_cursor p_keys p_btoks p_eof p_snips p_imports].
+      rewrite Ht, Hc, Nat.add_0_r. f_equal. lia.
+  - destruct fuel as [|f]; [cbn in Hfuel; lia|]. cbn [length] in Hfuel.
+    cbn [app] in Hpos. destruct (p_next_more _ _ _ _ _ Hpos) as [Hn Hpos1].
+    cbn [directive_loop]. rewrite Hn. cbn [negb].
+    set (st1 := set_cursor st (p_cursor st + 1)) in *.
+    rewrite (pval_pos _ _ _ _ Hpos1), (is_new_line_pos _ _ _ _ _ Hpos1), (tok_at_pos _ _ _ _ Hpos1).
+    cbn [line_ok] in Hok.
+    assert (Hstep : forall n', line_ok (exp_tok x) r n' = true ->
+      directive_loop env maxi globs files f
+        (push_tok (set_tok_text st1 (p_cursor st1) (t_text (retext x (renv env (t_text x))))) dir (retext x (renv env (t_text x)))) dir n' =
+      POk (st_with st (pre ++ cur :: map exp_tok (x :: r) ++ post) (Z.of_nat (length pre + length (x :: r)))
+               (push_all (p_btoks st) dir (map exp_tok (x :: r))))).
+    { intros n' Hok'.
+      assert (Hpos2 : at_pos (push_tok (set_tok_text st1 (p_cursor st1) (t_text (exp_tok x))) dir (exp_tok x))
+                             (pre ++ [cur]) (exp_tok x) (r ++ post)).
+      { split.
+        - cbn [push_tok p_tokens]. rewrite (set_tok_text_pos _ _ _ _ _ Hpos1). reflexivity.
+        - destruct Hpos1 as [_ Hc1]. exact Hc1. }
+      cbn [map last] in Hpost.
+      assert (Hpost' : post_ok (last (map exp_tok r) (exp_tok x)) post).
+      { destruct (map exp_tok r) eqn:Em; [exact Hpost|]. rewrite <- Em in *.
+        replace (last (map exp_tok r) (exp_tok x)) with (last (map exp_tok r) cur); [|rewrite Em; clear; revert t; induction l; intros; cbn; [reflexivity|apply IHl]].
+        destruct (map exp_tok r); [discriminate|exact Hpost]. }
+      unfold exp_tok in Hpos2 at 1 2. 
+      rewrite (IH _ _ _ f dir n' _ Hpos2 Hok' ltac:(lia) Hpost').
+      f_equal. unfold st_with. cbn [push_tok set_tok_text set_cursor st1 p_keys p_eof p_snips p_imports p_btoks map length push_all fold_left].
+      rewrite <- app_assoc. cbn [app]. rewrite app_length. cbn [length].
+      f_equal. lia. }
+    destruct (beq (t_text x) LBRACE) eqn:Elb.
+    { apply Hstep. exact Hok. }
+    destruct (next_on_new_line cur x && (nest =? 0)%Z) eqn:Enl; [discriminate|].
+    destruct (beq (t_text x) RBRACE) eqn:Erb.
+    { apply andb_true_iff in Hok as [Hn0 Hok]. rewrite Hn0. cbn [andb]. apply Hstep. exact Hok. }
+    cbn [andb].
+    destruct (beq (t_text x) IMPORT && next_on_new_line cur x) eqn:Eim; [discriminate|].
+    apply Hstep. exact Hok.
+Qed.
+
+Lemma st_with_with st a b c a' b' c' : st_with (st_with st a b c) a' b' c' = st_with st a' b' c'.
+Proof. reflexivity. Qed.
+
+(* cursor on the last token of [done] (or before the first token when [done] is empty) *)
+Definition at_end (st : pst) (done rest : list token) : Prop :=
+  p_tokens st = done ++ rest /\ p_cursor st = (Z.of_nat (length done) - 1)%Z.
+
+Lemma at_end_pos st pre x rest : at_end st (pre ++ [x]) rest <-> at_pos st pre x rest.
+Proof.
+  unfold at_end, at_pos. rewrite <- app_assoc, app_length. cbn [app length].
+  split; intros [H1 H2]; split; try exact H1; lia.
+Qed.
+
+Lemma p_next_end2 st done y rest : at_end st done (y :: rest) ->
+  p_next st = (true, set_cursor st (p_cursor st + 1)) /\ at_pos (set_cursor st (p_cursor st + 1)) done y rest.
+Proof.
+  intros [Ht Hc]. unfold p_next, plen. rewrite Ht, app_length. cbn [length].
+  destruct (p_cursor st <? Z.of_nat (length done + S (length rest)) - 1)%Z eqn:E; [|apply Z.ltb_ge in E; lia].
+  split; [reflexivity|]. split; cbn [set_cursor p_tokens p_cursor]; [exact Ht|lia].
+Qed.
+Lemma p_next_end3 st done : at_end st done [] -> p_next st = (false, st).
+Proof.
+  intros [Ht Hc]. unfold p_next, plen. rewrite Ht, app_length. cbn [length].
+  destruct (p_cursor st <? Z.of_nat (length done + 0) - 1)%Z eqn:E; [apply Z.ltb_lt in E; lia|reflexivity].
+Qed.
+
+Definition dline := (token * list token)%type.
+Definition line_toks (l : dline) : list token := fst l :: snd l.
+Definition exp_line (l : dline) : list token := fst l :: map exp_tok (snd l).
+Definition flat_lines (ls : list dline) : list token := concat (map line_toks ls).
+Definition exp_lines (ls : list dline) : list token := concat (map exp_line ls).
+Definition push_line (m : list (bytes * list token)) (l : dline) :=
+  push_all (add_btok m (renv env (t_text (fst l))) (fst l)) (renv env (t_text (fst l))) (map exp_tok (snd l)).
+Definition push_lines (m : list (bytes * list token)) (ls : list dline) := fold_left push_line ls m.
+
+Definition follow_ok (prev u : token) : bool := negb (beq (t_text u) LBRACE) && next_on_new_line prev u.
+Definition head_after (ls : list dline) (rb : token) : token :=
+  match ls with l :: _ => fst l | [] => rb end.
+
+Lemma post_ok_follow prev ls rb post : follow_ok prev (head_after ls rb) = true ->
+  post_ok prev (flat_lines ls ++ rb :: post).
+Proof.
+  unfold follow_ok. intros H. apply andb_true_iff in H as [H1 H2]. apply negb_true_iff in H1.
+  destruct ls as [|[d sg] r]; cbn; auto.
+Qed.
+
+Lemma directive_ok done d seg post fuel st :
+  at_end st (done ++ [d]) (seg ++ post) ->
+  line_ok d seg 0 = true -> (length seg < fuel)%nat ->
+  post_ok (last (map exp_tok seg) d) post ->
+  directive env maxi globs files fuel st =
+  POk (st_with st ((done ++ exp_line (d, seg)) ++ post) (Z.of_nat (length (done ++ exp_line (d, seg))) - 1)
+               (push_line (p_btoks st) (d, seg))).
+Proof.
+  intros Hend Hok Hf Hpost. apply at_end_pos in Hend.
+  unfold directive. rewrite (tok_at_pos _ _ _ _ Hend).
+  assert (Hpos' : at_pos (push_tok st (renv env (t_text d)) d) done d (seg ++ post)) by exact Hend.
+  rewrite (dloop _ _ _ _ _ _ _ _ Hpos' Hok Hf Hpost).
+  f_equal. unfold st_with, push_line, exp_line. cbn [push_tok p_keys p_btoks p_eof p_snips p_imports fst snd].
+  rewrite <- !app_assoc. cbn [app]. rewrite !app_length. cbn [length]. rewrite map_length.
+  f_equal. lia.
+Qed.
+
+Fixpoint lines_ok (ls : list dline) (rb : token) : bool :=
+  match ls with
+  | [] => true
+  | (d, seg) :: r =>
+      negb (beq (t_text d) RBRACE) && negb (beq (t_text d) IMPORT) && line_ok d seg 0 &&
+      follow_ok (last (map exp_tok seg) d) (head_after r rb) && lines_ok r rb
+  end.
+
+Lemma flat_lines_cons l r : flat_lines (l :: r) = fst l :: snd l ++ flat_lines r.
+Proof. reflexivity. Qed.
+Lemma exp_lines_cons l r : exp_lines (l :: r) = fst l :: map exp_tok (snd l) ++ exp_lines r.
+Proof. reflexivity. Qed.
+Lemma exp_lines_length ls : length (exp_lines ls) = length (flat_lines ls).
+Proof.
+  induction ls as [|l r IH]; [reflexivity|]. rewrite flat_lines_cons, exp_lines_cons.
+  cbn [length]. rewrite !app_length, map_length, IH. reflexivity.
+Qed.
+
+Lemma directives_ok : forall ls done rb post fuel st,
+  at_end st done (flat_lines ls ++ rb :: post) ->
+  lines_ok ls rb = true -> t_text rb = RBRACE ->
+  (length (flat_lines ls) + 1 < fuel)%nat ->
+  directives env maxi globs files fuel st =
+  POk (st_with st (done ++ exp_lines ls ++ rb :: post) (Z.of_nat (length (done ++ exp_lines ls)))
+               (push_lines (p_btoks st) ls)).
+Proof.
+  induction ls as [|[d seg] r IH]; intros done rb post fuel st Hend Hok Hrb Hf.
+  - destruct fuel as [|f]; [lia|]. cbn [flat_lines map concat app] in Hend.
+    destruct (p_next_end2 _ _ _ _ Hend) as [Hn Hpos]. cbn [directives]. rewrite Hn. cbn [negb].
+    rewrite (pval_pos _ _ _ _ Hpos), Hrb. change (beq RBRACE RBRACE) with true. cbn iota.
+    destruct Hend as [Ht Hc]. f_equal. unfold st_with, set_cursor. cbn [exp_lines map concat app push_lines fold_left].
+    rewrite Ht, app_nil_r. f_equal. lia.
+  - destruct fuel as [|f]; [lia|]. rewrite flat_lines_cons in Hend, Hf. cbn [fst snd] in Hend, Hf.
+    cbn [app] in Hend. cbn [length] in Hf. rewrite app_length in Hf.
+    destruct (p_next_end2 _ _ _ _ Hend) as [Hn Hpos]. cbn [directives]. rewrite Hn. cbn [negb].
+    cbn [lines_ok] in Hok. repeat (apply andb_true_iff in Hok as [Hok ?]).
+    rename H into Hrest, H0 into Hfol, H1 into Hline, H2 into Himp.
+    apply negb_true_iff in Hok, Himp.
+    rewrite (pval_pos _ _ _ _ Hpos), Hok, Himp.
+    set (st1 := set_cursor st (p_cursor st + 1)) in *.
+    assert (Hend1 : at_end st1 (done ++ [d]) (seg ++ flat_lines r ++ rb :: post)).
+    { apply at_end_pos. rewrite <- app_assoc in Hpos. exact Hpos. }
+    rewrite (directive_ok _ _ _ _ f _ Hend1 Hline ltac:(lia) (post_ok_follow _ _ _ _ Hfol)).
+    match goal with |- context [directives _ _ _ _ f ?s] => set (st2 := s) end.
+    assert (Hend2 : at_end st2 (done ++ exp_line (d, seg)) (flat_lines r ++ rb :: post)).
+    { split; [reflexivity|]. reflexivity. }
+    rewrite (IH _ _ _ f _ Hend2 Hrest Hrb ltac:(lia)).
+    f_equal. unfold st2. rewrite st_with_with. unfold st_with. cbn [st1 set_cursor p_keys p_eof p_snips p_imports p_btoks push_lines fold_left].
+    rewrite exp_lines_cons. unfold exp_line. cbn [fst snd]. rewrite <- !app_assoc. cbn [app].
+    rewrite <- !app_assoc. reflexivity.
+Qed.
+
+Lemma renv_lbrace : renv env LBRACE = LBRACE.
+Proof. reflexivity. Qed.
+Opaque renv.
+
+Definition key_name (tkn : bytes) : bytes :=
+  match rev tkn with [] => tkn | last :: pre => if last =? COMMA then rev pre else tkn end.
+Definition key_comma (tkn : bytes) : bool :=
+  match rev tkn with [] => false | last :: _ => last =? COMMA end.
+
+(* the keys of a server block: none expands to `import`, `{` or the empty text; a key is on the
+   line of its predecessor unless that one ends in a comma; the last key has no comma *)
+Fixpoint keys_ok (x : token) (ks : list token) : bool :=
+  let tkn := renv env (t_text x) in
+  negb (beq tkn IMPORT) && negb (beq tkn LBRACE) && negb (beq tkn []) &&
+  match ks with
+  | [] => negb (key_comma tkn)
+  | y :: ks' => (key_comma tkn || negb (next_on_new_line x y)) && keys_ok y ks'
+  end.
+
+Definition st_keys (st : pst) (c : Z) (ks : list bytes) : pst :=
+  {| p_tokens := p_tokens st; p_cursor := c; p_keys := ks; p_btoks := p_btoks st; p_eof := p_eof st;
+     p_snips := p_snips st; p_imports := p_imports st |}.
+
+Definition key_of (t : token) : bytes := key_name (renv env (t_text t)).
+
+Lemma addr_ok : forall ks x done lb rest fuel st expecting,
+  at_end st (done ++ [x]) (ks ++ lb :: rest) ->
+  keys_ok x ks = true -> t_text lb = LBRACE -> (length ks + 1 < fuel)%nat ->
+  addresses env maxi globs files fuel st expecting =
+  POk (st_keys st (Z.of_nat (length (done ++ x :: ks))) (p_keys st ++ map key_of (x :: ks))).
+Proof.
+  induction ks as [|y ks IH]; intros x done lb rest fuel st expecting Hend Hok Hlb Hf;
+    (destruct fuel as [|f]; [lia|]); cbn [keys_ok] in Hok;
+    repeat (apply andb_true_iff in Hok as [Hok ?]);
+    apply negb_true_iff in Hok; try apply negb_true_iff in H0; try apply negb_true_iff in H1.
+  - rename H into Hcomma, H0 into Hnil, H1 into Hnlb. apply negb_true_iff in Hcomma.
+    pose proof (proj1 (at_end_pos _ _ _ _) Hend) as Hpos.
+    cbn [addresses]. rewrite (pval_pos _ _ _ _ Hpos), Hok, Hnlb. cbn [andb].
+    unfold key_comma in Hcomma. unfold key_of, key_name. cbn [map].
+    destruct (rev (renv env (t_text x))) as [|lastc pre] eqn:Erev.
+    { apply (f_equal (@rev N)) in Erev. rewrite rev_involutive in Erev. cbn in Erev. rewrite Erev in Hnil. discriminate. }
+    rewrite Hcomma.
+    assert (Hend1 : at_end (add_key st (renv env (t_text x))) (done ++ [x]) (lb :: rest)) by exact Hend.
+    destruct (p_next_end2 _ _ _ _ Hend1) as [Hn Hpos2]. rewrite Hn. cbn [negb andb].
+    assert (Hfin : set_cursor (add_key st (renv env (t_text x))) (p_cursor (add_key st (renv env (t_text x))) + 1) =
+                   st_keys st (Z.of_nat (length (done ++ [x]))) (p_keys st ++ [renv env (t_text x)])).
+    { destruct Hend as [_ Hc]. unfold set_cursor, add_key, st_keys. cbn [p_tokens p_cursor p_keys p_btoks p_eof p_snips p_imports].
+      f_equal. rewrite Hc. lia. }
+    destruct (is_new_line _) eqn:Enl.
+    + rewrite Hfin. reflexivity.
+    + destruct f as [|f']; [lia|]. cbn [addresses].
+      rewrite (pval_pos _ _ _ _ Hpos2), Hlb, renv_lbrace.
+      change (beq LBRACE IMPORT) with false. cbn [andb]. change (beq LBRACE LBRACE) with true. cbn iota.
+      rewrite Hfin. reflexivity.
+  - rename H into Hrest, H0 into Hnil, H1 into Hnlb. apply andb_true_iff in Hrest as [Hadj Hrest].
+    pose proof (proj1 (at_end_pos _ _ _ _) Hend) as Hpos.
+    cbn [addresses]. rewrite (pval_pos _ _ _ _ Hpos), Hok, Hnlb. cbn [andb].
+    unfold key_comma in Hadj. cbn [map]. unfold key_of at 1. unfold key_name.
+    destruct (rev (renv env (t_text x))) as [|lastc pre] eqn:Erev.
+    { apply (f_equal (@rev N)) in Erev. rewrite rev_involutive in Erev. cbn in Erev. rewrite Erev in Hnil. discriminate. }
+    cbn [app] in Hend.
+    assert (Hgen : forall nm e1, (e1 || negb (next_on_new_line x y)) = true ->
+      (let '(has, st2) := p_next (add_key st nm) in
+       if e1 && negb has then PErr ESyntax
+       else if negb has then POk (set_eof st2)
+       else if negb e1 && is_new_line st2 then POk st2
+       else addresses env maxi globs files f st2 e1) =
+      POk (st_keys st (Z.of_nat (length (done ++ x :: y :: ks))) (p_keys st ++ nm :: map key_of (y :: ks)))).
+    { intros nm e1 He.
+      assert (Hend1 : at_end (add_key st nm) (done ++ [x]) (y :: ks ++ lb :: rest)) by exact Hend.
+      destruct (p_next_end2 _ _ _ _ Hend1) as [Hn Hpos2]. rewrite Hn. cbn [negb]. rewrite andb_false_r.
+      rewrite (is_new_line_pos _ _ _ _ _ Hpos2).
+      assert (E : negb e1 && next_on_new_line x y = false).
+      { destruct e1; [reflexivity|]. cbn in He. apply negb_true_iff in He. rewrite He. reflexivity. }
+      rewrite E.
+      rewrite (IH y (done ++ [x]) lb rest f _ e1 (proj2 (at_end_pos _ _ _ _) Hpos2) Hrest Hlb ltac:(cbn [length] in Hf; lia)).
+      f_equal. unfold st_keys, set_cursor, add_key. cbn [p_tokens p_cursor p_keys p_btoks p_eof p_snips p_imports].
+      rewrite <- !app_assoc. cbn [app]. reflexivity. }
+    destruct (lastc =? COMMA); apply Hgen; [reflexivity|exact Hadj].
+Qed.
+
+Record tblock := { b_key : token; b_keys : list token; b_lb : token; b_lines : list dline; b_rb : token }.
+Definition flat_block (b : tblock) : list token :=
+  b_key b :: b_keys b ++ b_lb b :: flat_lines (b_lines b) ++ [b_rb b].
+Definition exp_block (b : tblock) : list token :=
+  b_key b :: b_keys b ++ b_lb b :: exp_lines (b_lines b) ++ [b_rb b].
+Definition block_names (b : tblock) : list bytes := map key_of (b_key b :: b_keys b).
+Definition block_ok (b : tblock) : bool :=
+  keys_ok (b_key b) (b_keys b) && beq (t_text (b_lb b)) LBRACE && lines_ok (b_lines b) (b_rb b) &&
+  beq (t_text (b_rb b)) RBRACE && negb (is_snippet (block_names b)).
+Definition block_res (b : tblock) : block := (block_names b, push_lines [] (b_lines b)).
+Definition flat_blocks (bs : list tblock) : list token := concat (map flat_block bs).
+Definition block_fuel (b : tblock) : nat := length (flat_block b).
+
+Definition st_block (st : pst) (toks : list token) (c : Z) (b : tblock) : pst :=
+  {| p_tokens := toks; p_cursor := c; p_keys := block_names b; p_btoks := push_lines [] (b_lines b);
+     p_eof := p_eof st; p_snips := p_snips st; p_imports := p_imports st |}.
+
+Definition reset_block (st : pst) : pst :=
+  {| p_tokens := p_tokens st; p_cursor := p_cursor st; p_keys := []; p_btoks := [];
+     p_eof := p_eof st; p_snips := p_snips st; p_imports := p_imports st |}.
+Lemma parse_one_unfold fuel st : p_tokens st <> [] ->
+  parse_one env maxi globs files fuel st =
+  match addresses env maxi globs files fuel (reset_block st) false with
+  | POk st1 =>
+      if p_eof st1 then POk st1
+      else if is_snippet (p_keys st1) then define_snippet fuel st1
+      else block_contents env maxi globs files fuel st1
+  | e => e
+  end.
+Proof.
+  intros Hne. unfold parse_one, reset_block. cbn [p_tokens].
+  destruct (p_tokens st); [congruence|reflexivity].
+Qed.
+
+Lemma parse_one_ok b done post fuel st :
+  at_end st (done ++ [b_key b]) (b_keys b ++ b_lb b :: flat_lines (b_lines b) ++ b_rb b :: post) ->
+  p_eof st = false -> block_ok b = true -> (block_fuel b < fuel)%nat ->
+  parse_one env maxi globs files fuel st =
+  POk (st_block st (done ++ exp_block b ++ post) (Z.of_nat (length (done ++ exp_block b)) - 1) b).
+Proof.
+  intros Hend Heof Hok Hf. unfold block_ok in Hok.
+  repeat (apply andb_true_iff in Hok as [Hok ?]).
+  rename H into Hsn, H0 into Hrb, H1 into Hlines, H2 into Hlb. apply beq_eq in Hrb, Hlb. apply negb_true_iff in Hsn.
+  unfold block_fuel, flat_block in Hf. cbn [length] in Hf. rewrite !app_length in Hf. cbn [length] in Hf. rewrite app_length in Hf. cbn [length] in Hf.
+  rewrite parse_one_unfold.
+  2:{ destruct Hend as [Ht _]. rewrite Ht. destruct done; discriminate. }
+  set (st0 := reset_block st).
+  assert (Hend0 : at_end st0 (done ++ [b_key b]) (b_keys b ++ b_lb b :: flat_lines (b_lines b) ++ b_rb b :: post)) by exact Hend.
+  rewrite (addr_ok _ _ _ _ _ fuel _ false Hend0 Hok Hlb ltac:(lia)).
+  cbn [st_keys p_eof st0 reset_block p_keys app]. rewrite Heof. fold (block_names b). rewrite Hsn.
+  match goal with |- block_contents _ _ _ _ _ ?s = _ => set (st1 := s) end.
+  assert (Hpos1 : at_pos st1 (done ++ b_key b :: b_keys b) (b_lb b) (flat_lines (b_lines b) ++ b_rb b :: post)).
+  { destruct Hend as [Ht Hc]. split; cbn [st1 st_keys st0 reset_block p_tokens p_cursor]; [|reflexivity].
+    rewrite Ht, <- !app_assoc. reflexivity. }
+  unfold block_contents. rewrite (pval_pos _ _ _ _ Hpos1), Hlb. change (beq LBRACE LBRACE) with true. cbn iota.
+  rewrite (directives_ok _ _ _ _ fuel _ (proj2 (at_end_pos _ _ _ _) Hpos1) Hlines Hrb ltac:(lia)).
+  match goal with |- context [pval ?s] => set (st2 := s) end.
+  assert (Hpos2 : at_pos st2 ((done ++ b_key b :: b_keys b) ++ [b_lb b] ++ exp_lines (b_lines b)) (b_rb b) post).
+  { split; cbn [st2 st_with st1 st_keys st0 reset_block p_tokens p_cursor]; [|rewrite <- !app_assoc; reflexivity].
+    rewrite <- !app_assoc. reflexivity. }
+  rewrite (pval_pos _ _ _ _ Hpos2), Hrb. change (beq RBRACE RBRACE) with true. cbn iota.
+  f_equal. unfold st2, st_with, st_block, exp_block. cbn [st1 st_keys p_keys p_btoks p_eof p_snips p_imports st0 reset_block].
+  f_equal.
+  - repeat (rewrite <- ?app_assoc; cbn [app]). reflexivity.
+  - repeat (rewrite ?app_length; cbn [length]). lia.
+Qed.
+
+Lemma flat_blocks_cons b bs : flat_blocks (b :: bs) =
+  b_key b :: b_keys b ++ b_lb b :: flat_lines (b_lines b) ++ b_rb b :: flat_blocks bs.
+Proof.
+  unfold flat_blocks. cbn [map concat]. unfold flat_block. cbn [app]. rewrite <- !app_assoc. cbn [app].
+  rewrite <- !app_assoc. reflexivity.
+Qed.
+Lemma exp_block_length b : length (exp_block b) = length (flat_block b).
+Proof.
+  unfold exp_block, flat_block. cbn [length]. rewrite !app_length. cbn [length]. rewrite !app_length, exp_lines_length. reflexivity.
+Qed.
+
+Lemma parse_all_ok : forall bs done fuel st acc,
+  at_end st done (flat_blocks bs) -> p_eof st = false ->
+  forallb block_ok bs = true -> (length (flat_blocks bs) + 1 < fuel)%nat ->
+  parse_all env maxi globs files fuel st acc = POk (rev acc ++ map block_res bs).
+Proof.
+  induction bs as [|b bs IH]; intros done fuel st acc Hend Heof Hok Hf; (destruct fuel as [|f]; [lia|]).
+  - cbn [parse_all]. rewrite (p_next_end3 _ _ Hend). cbn [negb map]. rewrite app_nil_r. reflexivity.
+  - cbn [forallb] in Hok. apply andb_true_iff in Hok as [Hb Hbs].
+    rewrite flat_blocks_cons in Hend.
+    assert (Hlen : length (flat_blocks (b :: bs)) = (length (flat_block b) + length (flat_blocks bs))%nat).
+    { unfold flat_blocks. cbn [map concat]. apply app_length. }
+    rewrite Hlen in Hf.
+    assert (Hb1 : (1 <= length (flat_block b))%nat) by (unfold flat_block; cbn [length]; lia).
+    destruct (p_next_end2 _ _ _ _ Hend) as [Hn Hpos]. cbn [parse_all]. rewrite Hn. cbn [negb].
+    set (st1 := set_cursor st (p_cursor st + 1)) in *.
+    rewrite (parse_one_ok b done (flat_blocks bs) (S f) st1 (proj2 (at_end_pos _ _ _ _) Hpos) Heof Hb ltac:(unfold block_fuel; lia)).
+    cbn [st_block p_keys p_btoks]. unfold block_names at 1. cbn [map].
+    match goal with |- parse_all _ _ _ _ f ?s ?a = _ => set (st2 := s); set (acc2 := a) end.
+    assert (Hend2 : at_end st2 (done ++ exp_block b) (flat_blocks bs)).
+    { split; cbn [st2 st_block p_tokens p_cursor]; [rewrite <- app_assoc; reflexivity|reflexivity]. }
+    rewrite (IH _ f st2 acc2 Hend2 Heof Hbs ltac:(lia)).
+    unfold acc2. cbn [rev map]. rewrite <- app_assoc. reflexivity.
+Qed.
+
+Theorem parse_structure_tokens bs fuel :
+  forallb block_ok bs = true -> (length (flat_blocks bs) + 1 < fuel)%nat ->
+  parse_tokens env maxi globs files fuel (flat_blocks bs) = POk (map block_res bs).
+Proof.
+  intros Hok Hf. unfold parse_tokens.
+  apply (parse_all_ok bs [] fuel (init_st (flat_blocks bs)) [] (conj eq_refl eq_refl) eq_refl Hok Hf).
+Qed.
+End Exec.
+
+(* ================= from printed text to annotated tokens ================= *)
+Definition ltok := (list N * bool)%type.   (* text, followed by a line break (else a space) *)
+Definition adv (line : Z) (t : ltok) : Z := (line + count_nl (fst t) + (if snd t then 1 else 0))%Z.
+Fixpoint toks_from (f : N) (line : Z) (ts : list ltok) : list token :=
+  match ts with
+  | [] => []
+  | t :: r => {| t_file := f; t_line := line; t_text := fst t |} :: toks_from f (adv line t) r
+  end.
+Fixpoint end_line (line : Z) (ts : list ltok) : Z :=
+  match ts with [] => line | t :: r => end_line (adv line t) r end.
+
+Lemma toks_from_app f : forall a line b,
+  toks_from f line (a ++ b) = toks_from f line a ++ toks_from f (end_line line a) b.
+Proof. induction a as [|t a IH]; intros line b; cbn; [reflexivity|]. rewrite IH. reflexivity. Qed.
+Lemma end_line_app : forall a line b, end_line line (a ++ b) = end_line (end_line line a) b.
+Proof. induction a as [|t a IH]; intros line b; cbn; [reflexivity|]. apply IH. Qed.
+
+Lemma lex_print_tokens ts : forallb (fun p => okq (fst p)) ts = true ->
+  lex (print ts) = toks_from 0 1%Z ts.
+Proof.
+  intros Hok. unfold lex.
+  assert (Hb : match print ts with c :: r => if c =? BOM then r else print ts | [] => [] end = print ts).
+  { destruct ts as [|[t nl] ts]; [reflexivity|]. cbn [print quote_text app].
+    change (QUOTE =? BOM) with false. reflexivity. }
+  rewrite Hb, lex_go_print by exact Hok. clear. generalize 1%Z.
+  induction ts as [|[t nl] r IH]; intros line; cbn; [reflexivity|].
+  unfold adv. cbn [fst snd]. rewrite IH. reflexivity.
+Qed.
+
+(* a configuration as written: server blocks with keys and directive lines; every line is the
+   directive's name followed by the rest of the line (arguments, nested `{ ... }` sub-blocks);
+   the braces of the server block itself are implicit, each followed by a line break *)
+Record ablock := { a_key : ltok; a_keys : list ltok; a_lines : list (ltok * list ltok) }.
+Definition LB : ltok := (LBRACE, true).
+Definition RB : ltok := (RBRACE, true).
+Definition a_line_flat (l : ltok * list ltok) : list ltok := fst l :: snd l.
+Definition a_flat (b : ablock) : list ltok :=
+  a_key b :: a_keys b ++ LB :: concat (map a_line_flat (a_lines b)) ++ [RB].
+Definition a_flat_all (bs : list ablock) : list ltok := concat (map a_flat bs).
+
+Definition mk_tok (f : N) (line : Z) (t : ltok) : token := {| t_file := f; t_line := line; t_text := fst t |}.
+Fixpoint annot_lines (f : N) (line : Z) (ls : list (ltok * list ltok)) : list dline :=
+  match ls with
+  | [] => []
+  | l :: r => (mk_tok f line (fst l), toks_from f (adv line (fst l)) (snd l))
+              :: annot_lines f (end_line line (a_line_flat l)) r
+  end.
+Definition annot_block (f : N) (line : Z) (b : ablock) : tblock :=
+  let l1 := adv line (a_key b) in
+  let l2 := end_line l1 (a_keys b) in
+  let l3 := adv l2 LB in
+  let l4 := end_line l3 (concat (map a_line_flat (a_lines b))) in
+  {| b_key := mk_tok f line (a_key b); b_keys := toks_from f l1 (a_keys b); b_lb := mk_tok f l2 LB;
+     b_lines := annot_lines f l3 (a_lines b); b_rb := mk_tok f l4 RB |}.
+Fixpoint annot_blocks (f : N) (line : Z) (bs : list ablock) : list tblock :=
+  match bs with
+  | [] => []
+  | b :: r => annot_block f line b :: annot_blocks f (end_line line (a_flat b)) r
+  end.
+
+Lemma flat_annot_lines f : forall ls line,
+  flat_lines (annot_lines f line ls) = toks_from f line (concat (map a_line_flat ls)).
+Proof.
+  induction ls as [|l r IH]; intros line; [reflexivity|].
+  cbn [annot_lines map concat]. rewrite flat_lines_cons, toks_from_app. cbn [fst snd].
+  rewrite IH. reflexivity.
+Qed.
+Lemma flat_annot_block f line b : flat_block (annot_block f line b) = toks_from f line (a_flat b).
+Proof.
+  unfold flat_block, annot_block, a_flat. cbn [b_key b_keys b_lb b_lines b_rb toks_from].
+  unfold mk_tok. f_equal. rewrite toks_from_app. f_equal. cbn [toks_from]. f_equal.
+  rewrite toks_from_app, flat_annot_lines. reflexivity.
+Qed.
+Lemma flat_annot_blocks f : forall bs line,
+  flat_blocks (annot_blocks f line bs) = toks_from f line (a_flat_all bs).
+Proof.
+  induction bs as [|b r IH]; intros line; [reflexivity|].
+  unfold flat_blocks, a_flat_all in *. cbn [annot_blocks map concat].
+  rewrite toks_from_app, flat_annot_block, IH. reflexivity.
+Qed.
+
+Theorem parse_structure env bs :
+  forallb (fun p => okq (fst p)) (a_flat_all bs) = true ->
+  forallb (block_ok env) (annot_blocks 0 1%Z bs) = true ->
+  parse env (print (a_flat_all bs)) = POk (map (block_res env) (annot_blocks 0 1%Z bs)).
+Proof.
+  intros Hq Hok. unfold parse, parse_world. rewrite (lex_print_tokens _ Hq), <- flat_annot_blocks.
+  apply parse_structure_tokens; [exact Hok|].
+  unfold run_fuel. generalize ((N.to_nat 10000 + 1) * (total_len (lex_files []) + length (flat_blocks (annot_blocks 0 1%Z bs))))%nat.
+  intros k. lia.
+Qed.
+
+(* the expected result only depends on what was written: keys and, per directive, its tokens in
+   file order with environment references expanded (the directive's own token as written) *)
+Local Open Scope string_scope.
+Example parse_structure_nonvacuous :
+  let env := [(bs "HOST"%string, bs "example.com"%string)] in
+  let t (s : string) (nl : bool) : ltok := (bs s, nl) in
+  let cfg := [ {| a_key := t "{$HOST}," true; a_keys := [t "www.{$HOST}" false];
+                  a_lines := [ (t "root" false, [t "/var/www" true]);
+                               (t "proxy" false, [t "/" false; t "b:80" false; t "{" true;
+                                                  t "header_upstream" false; ([72; 10; 105], false); t "x y" true;
+                                                  t "sub" false; t "{" true; t "opt" false; t "import" false; t "deep" true; t "}" true;
+                                                  t "}" true]);
+                               (t "root" false, [t "/other" true]) ] |};
+               {| a_key := t ":2015" false; a_keys := []; a_lines := [ (t "gzip" true, []) ] |} ] in
+  forallb (fun p => okq (fst p)) (a_flat_all cfg) = true /\
+  forallb (block_ok env) (annot_blocks 0 1%Z cfg) = true /\
+  map (fun b => (fst b, map (fun g => (fst g, length (snd g))) (snd b)))
+      (map (block_res env) (annot_blocks 0 1%Z cfg)) =
+  [ ([bs "example.com"%string; bs "www.example.com"%string], [(bs "root"%string, 4%nat); (bs "proxy"%string, 14%nat)]);
+    ([bs ":2015"%string], [(bs "gzip"%string, 1%nat)]) ].
+Proof. vm_compute. auto. Qed.
+Local Close Scope string_scope.
+
+(* ================= imports ================= *)
+Section Imports.
+Variable env : list (bytes * bytes).
+Variable maxi : N.
+Variable globs : list ((N * bytes) * list N).
+Variable files : list (N * option (list token)).
+
+Definition same_line (a b : token) : bool :=
+  (t_file a =? t_file b) && (t_line a + count_nl (t_text a) =? t_line b)%Z.
+
+Lemma next_arg_yes st pre x y rest : at_pos st pre x (y :: rest) -> same_line x y = true ->
+  next_arg st = (true, set_cursor st (p_cursor st + 1)).
+Proof.
+  intros Hpos Hs. pose proof (plen_pos _ _ _ _ Hpos) as Hl. cbn [length] in Hl.
+  destruct (p_next_more _ _ _ _ _ Hpos) as [_ Hpos1].
+  unfold next_arg. pose proof (tok_at_pos _ _ _ _ Hpos) as Hx. pose proof (tok_at_pos _ _ _ _ Hpos1) as Hy.
+  cbn [set_cursor p_cursor] in Hy. unfold tok_at in Hy. cbn [set_cursor p_tokens] in Hy. fold (tok_at st (p_cursor st + 1)) in Hy.
+  destruct Hpos as [Ht Hc].
+  destruct (p_cursor st <? 0)%Z eqn:E1; [apply Z.ltb_lt in E1; lia|].
+  destruct (p_cursor st >=? plen st)%Z eqn:E2; [apply Z.geb_le in E2; lia|].
+  rewrite Hx, Hy. unfold same_line in Hs. rewrite Hs. reflexivity.
+Qed.
+Lemma next_arg_no st pre x rest :
+  at_pos st pre x rest -> match rest with [] => True | y :: _ => same_line x y = false end ->
+  fst (next_arg st) = false.
+Proof.
+  intros Hpos Hs. pose proof (plen_pos _ _ _ _ Hpos) as Hl.
+  unfold next_arg. pose proof (tok_at_pos _ _ _ _ Hpos) as Hx.
+  destruct (p_cursor st <? 0)%Z eqn:E1; [destruct Hpos as [_ Hc]; apply Z.ltb_lt in E1; lia|].
+  destruct (p_cursor st >=? plen st)%Z eqn:E2; [reflexivity|].
+  rewrite Hx. destruct rest as [|y rest].
+  - assert (Hn : tok_at st (p_cursor st + 1) = None).
+    { destruct Hpos as [Ht Hc]. unfold tok_at. rewrite Ht, Hc.
+      destruct (Z.of_nat (length pre) + 1 <? 0)%Z; [reflexivity|].
+      apply nth_error_None. rewrite app_length. cbn [length]. lia. }
+    rewrite Hn. reflexivity.
+  - destruct (p_next_more _ _ _ _ _ Hpos) as [_ Hpos1]. pose proof (tok_at_pos _ _ _ _ Hpos1) as Hy.
+    cbn [set_cursor p_cursor] in Hy. unfold tok_at in Hy. cbn [set_cursor p_tokens] in Hy. fold (tok_at st (p_cursor st + 1)) in Hy.
+    rewrite Hy. unfold same_line in Hs. rewrite Hs. reflexivity.
+Qed.
+
+Definition st_imp (st : pst) (toks : list token) (c : Z) : pst :=
+  {| p_tokens := toks; p_cursor := c; p_keys := p_keys st; p_btoks := p_btoks st; p_eof := p_eof st;
+     p_snips := p_snips st; p_imports := (p_imports st + 1)%N |}.
+
+(* an import statement [imp arg] whose pattern resolves (through the glob oracle) to files *)
+Definition import_ready (st : pst) (imp arg : token) (post : list token) (pat : bytes) (toks : list token) : Prop :=
+  same_line imp arg = true /\ renv env (t_text arg) = pat /\ pat <> [] /\
+  match post with [] => True | y :: _ => same_line arg y = false end /\
+  lookup_s (p_snips st) pat = None /\ glob_ok pat = true /\
+  exists ids, ids <> [] /\ lookup_g globs (t_file arg) pat = Some ids /\ import_files files ids = POk toks.
+
+Lemma do_import_over st pre imp arg post pat toks :
+  at_pos st pre imp (arg :: post) -> import_ready st imp arg post pat toks ->
+  (maxi <? p_imports st + 1)%N = true ->
+  do_import env maxi globs files st = PErr ECycle.
+Proof.
+  intros Hpos (Hs & Hpat & Hne & _) Hover.
+  unfold do_import. rewrite (next_arg_yes _ _ _ _ _ Hpos Hs).
+  destruct (p_next_more _ _ _ _ _ Hpos) as [_ Hpos1]. cbn [negb].
+  rewrite (pval_pos _ _ _ _ Hpos1), Hpat. destruct pat; [congruence|].
+  cbn [set_cursor p_imports]. rewrite Hover. reflexivity.
+Qed.
+
+Lemma do_import_ok st pre imp arg post pat toks :
+  at_pos st pre imp (arg :: post) -> import_ready st imp arg post pat toks ->
+  (maxi <? p_imports st + 1)%N = false ->
+  do_import env maxi globs files st = POk (st_imp st (pre ++ toks ++ post) (Z.of_nat (length pre))).
+Proof.
+  intros Hpos (Hs & Hpat & Hne & Hpost & Hsn & Hg & ids & Hids & Hlg & Hif) Hcap.
+  unfold do_import. rewrite (next_arg_yes _ _ _ _ _ Hpos Hs).
+  destruct (p_next_more _ _ _ _ _ Hpos) as [_ Hpos1]. cbn [negb].
+  set (st1 := set_cursor st (p_cursor st + 1)) in *.
+  rewrite (pval_pos _ _ _ _ Hpos1), Hpat. destruct pat as [|p0 pt]; [congruence|].
+  change (p_imports st1) with (p_imports st). rewrite Hcap.
+  pose proof (next_arg_no _ _ _ _ Hpos1 Hpost) as Hno.
+  destruct (next_arg st1) as [has2 stx]. cbn [fst] in Hno. subst has2.
+  destruct Hpos1 as [Ht1 Hc1]. rewrite app_length in Hc1. cbn [length] in Hc1.
+  unfold zslice_to, zslice_from. rewrite Hc1.
+  destruct (Z.of_nat (length pre + 1) - 1 <? 0)%Z eqn:E1; [apply Z.ltb_lt in E1; lia|].
+  destruct (Z.of_nat (length pre + 1) + 1 <? 0)%Z eqn:E2; [apply Z.ltb_lt in E2; lia|].
+  replace (Z.to_nat (Z.of_nat (length pre + 1) - 1)) with (length pre) by lia.
+  replace (Z.to_nat (Z.of_nat (length pre + 1) + 1)) with (length pre + 2)%nat by lia.
+  unfold slice, slice_from. rewrite Ht1, <- app_assoc. cbn [app].
+  rewrite !app_length. cbn [length].
+  replace (Nat.leb 0 (length pre)) with true by (symmetry; apply Nat.leb_le; lia).
+  replace (Nat.leb (length pre) (length pre + S (S (length post)))) with true by (symmetry; apply Nat.leb_le; lia).
+  replace (Nat.leb (length pre + 2) (length pre + S (S (length post)))) with true by (symmetry; apply Nat.leb_le; lia).
+  cbn [andb skipn]. rewrite Nat.sub_0_r, firstn_app, Nat.sub_diag, firstn_all. cbn [firstn]. rewrite app_nil_r.
+  rewrite skipn_app, skipn_all2 by lia. replace (length pre + 2 - length pre)%nat with 2%nat by lia. cbn [skipn app].
+  unfold imported_tokens. change (p_snips st1) with (p_snips st). rewrite Hsn, Hg. cbn [negb].
+  assert (Hf : tok_at st1 (p_cursor st1) = Some arg).
+  { apply (tok_at_pos st1 (pre ++ [imp]) arg post). split; [rewrite Ht1, <- app_assoc; reflexivity|rewrite app_length; cbn [length]; lia]. }
+  rewrite Hf, Hlg. destruct ids as [|i0 ids']; [congruence|]. rewrite Hif.
+  f_equal. unfold st_imp. cbn [st1 set_cursor p_keys p_btoks p_eof p_snips p_imports]. f_equal. lia.
+Qed.
+
+Lemma directives_lines : forall ls done nxt post f st,
+  at_end st done (flat_lines ls ++ nxt :: post) ->
+  lines_ok env ls nxt = true -> (length (flat_lines ls) < f)%nat ->
+  directives env maxi globs files (length ls + f) st =
+  directives env maxi globs files f
+    (st_with st (done ++ exp_lines env ls ++ nxt :: post) (Z.of_nat (length (done ++ exp_lines env ls)) - 1)
+             (push_lines env (p_btoks st) ls)).
+Proof.
+  induction ls as [|[d seg] r IH]; intros done nxt post f st Hend Hok Hf.
+  - cbn [length Nat.add exp_lines flat_lines map concat app push_lines fold_left] in *.
+    rewrite app_nil_r. destruct Hend as [Ht Hc]. rewrite <- Ht, <- Hc, <- st_with_eta. reflexivity.
+  - rewrite flat_lines_cons in Hend, Hf. cbn [fst snd app length] in Hend, Hf. rewrite app_length in Hf.
+    destruct (p_next_end2 _ _ _ _ Hend) as [Hn Hpos]. cbn [length Nat.add directives]. rewrite Hn. cbn [negb].
+    cbn [lines_ok] in Hok. repeat (apply andb_true_iff in Hok as [Hok ?]).
+    rename H into Hrest, H0 into Hfol, H1 into Hline, H2 into Himp.
+    apply negb_true_iff in Hok, Himp.
+    rewrite (pval_pos _ _ _ _ Hpos), Hok, Himp.
+    set (st1 := set_cursor st (p_cursor st + 1)) in *.
+    assert (Hend1 : at_end st1 (done ++ [d]) (seg ++ flat_lines r ++ nxt :: post)).
+    { apply at_end_pos. rewrite <- app_assoc in Hpos. exact Hpos. }
+    assert (Hpo : post_ok (last (map (exp_tok env) seg) d) (flat_lines r ++ nxt :: post)).
+    { unfold follow_ok in Hfol. apply andb_true_iff in Hfol as [H1 H2]. apply negb_true_iff in H1.
+      destruct r as [|[d' sg'] r']; cbn; auto. }
+    rewrite (directive_ok env maxi globs files _ _ _ _ (length r + f) _ Hend1 Hline ltac:(lia) Hpo).
+    match goal with |- directives _ _ _ _ _ ?s = _ => set (st2 := s) end.
+    assert (Hend2 : at_end st2 (done ++ exp_line env (d, seg)) (flat_lines r ++ nxt :: post)).
+    { split; reflexivity. }
+    rewrite (IH _ _ _ f _ Hend2 Hrest ltac:(lia)).
+    f_equal. unfold st2. rewrite st_with_with. unfold st_with. cbn [st1 set_cursor p_keys p_eof p_snips p_imports p_btoks push_lines fold_left].
+    rewrite exp_lines_cons. unfold exp_line. cbn [fst snd].
+    f_equal; repeat (rewrite <- ?app_assoc; cbn [app]); reflexivity.
+Qed.
+
+(* ---- import chains that never end: every reachable file is "lines; import next; rest" ---- *)
+Record node := { n_lines : list dline; n_imp : token; n_arg : token; n_tail : list token; n_pat : bytes; n_next : N }.
+Definition node_toks (nd : node) : list token :=
+  flat_lines (n_lines nd) ++ n_imp nd :: n_arg nd :: n_tail nd.
+
+Lemma lines_le_flat (ls : list dline) : (length ls <= length (flat_lines ls))%nat.
+Proof.
+  induction ls as [|l r IH]; [cbn; lia|]. rewrite flat_lines_cons. cbn [length]. rewrite app_length. lia.
+Qed.
+
+Section Chain.
+Variable graph : N -> option node.     (* the files of the chain (and the importing block) *)
+Variable L : nat.                      (* bound on the tokens before the import in each of them *)
+
+(* a token that is not on the line of any import argument of the chain *)
+Definition far (y : token) : Prop := forall id nd, graph id = Some nd -> same_line (n_arg nd) y = false.
+
+Definition chain_node (nd : node) : Prop :=
+  lines_ok env (n_lines nd) (n_imp nd) = true /\ t_text (n_imp nd) = IMPORT /\
+  same_line (n_imp nd) (n_arg nd) = true /\ renv env (t_text (n_arg nd)) = n_pat nd /\ n_pat nd <> [] /\
+  Forall far (n_tail nd) /\
+  glob_ok (n_pat nd) = true /\ lookup_g globs (t_file (n_arg nd)) (n_pat nd) = Some [n_next nd] /\
+  (length (flat_lines (n_lines nd)) <= L)%nat /\
+  exists nd', graph (n_next nd) = Some nd' /\ lookup_f files (n_next nd) = Some (Some (node_toks nd')).
+Definition closed_chain : Prop := forall id nd, graph id = Some nd -> chain_node nd.
+
+Lemma chain_directives : closed_chain -> forall r id nd done post st fuel,
+  graph id = Some nd -> at_end st done (node_toks nd ++ post) -> Forall far post -> p_snips st = [] ->
+  (N.to_nat (p_imports st) + r = N.to_nat maxi)%nat ->
+  (S r * (L + 2) + L <= fuel)%nat ->
+  directives env maxi globs files fuel st = PErr ECycle.
+Proof.
+  intros Hclosed. induction r as [|r IH]; intros id nd done post st fuel Hg Hend Hfar Hsn Hbud Hfuel;
+    destruct (Hclosed _ _ Hg) as (Hlines & Himp & Hsame & Hpat & Hne & Htail & Hglob & Hlg & HL & nd' & Hg' & Hf');
+    rewrite Nat.mul_succ_l in Hfuel;
+    pose proof (lines_le_flat (n_lines nd)) as Hll.
+  all: unfold node_toks in Hend; rewrite <- app_assoc in Hend; cbn [app] in Hend.
+  all: replace fuel with (length (n_lines nd) + (fuel - length (n_lines nd)))%nat by lia.
+  all: rewrite (directives_lines (n_lines nd) done (n_imp nd) (n_arg nd :: n_tail nd ++ post) (fuel - length (n_lines nd)) st Hend Hlines ltac:(lia)).
+  all: match goal with |- directives _ _ _ _ ?f ?s = _ => set (st1 := s); set (f1 := f) end.
+  all: assert (Hend1 : at_end st1 (done ++ exp_lines env (n_lines nd)) (n_imp nd :: n_arg nd :: n_tail nd ++ post))
+         by (split; [cbn [st1 st_with p_tokens]; rewrite <- app_assoc; reflexivity|reflexivity]).
+  all: destruct f1 as [|f2] eqn:Ef1; [unfold f1 in Ef1; lia|].
+  all: destruct (p_next_end2 _ _ _ _ Hend1) as [Hn Hpos]; cbn [directives]; rewrite Hn; cbn [negb].
+  all: rewrite (pval_pos _ _ _ _ Hpos), Himp; change (beq IMPORT RBRACE) with false; change (beq IMPORT IMPORT) with true; cbn iota.
+  all: set (st2 := set_cursor st1 (p_cursor st1 + 1)) in *.
+  all: assert (Hfar2 : Forall far (n_tail nd ++ post)) by (apply Forall_app; split; assumption).
+  all: assert (Hready : import_ready st2 (n_imp nd) (n_arg nd) (n_tail nd ++ post) (n_pat nd) (node_toks nd' ++ []))
+        by (repeat split; try assumption;
+            [ destruct (n_tail nd ++ post) as [|y tl]; [exact I|inversion Hfar2 as [|? ? Hy _]; exact (Hy _ _ Hg)]
+            | cbn [st2 st1 set_cursor st_with p_snips]; rewrite Hsn; reflexivity
+            | exists [n_next nd]; repeat split; [discriminate|exact Hlg|cbn [import_files]; rewrite Hf'; reflexivity] ]).
+  - (* budget exhausted *)
+    rewrite (do_import_over _ _ _ _ _ _ _ Hpos Hready); [reflexivity|].
+    cbn [st2 st1 set_cursor st_with p_imports]. apply N.ltb_lt. lia.
+  - rewrite (do_import_ok _ _ _ _ _ _ _ Hpos Hready).
+    2:{ cbn [st2 st1 set_cursor st_with p_imports]. apply N.ltb_ge. lia. }
+    match goal with |- directives _ _ _ _ f2 ?s = _ => set (st3 := s) end.
+    apply (IH (n_next nd) nd' (done ++ exp_lines env (n_lines nd)) (n_tail nd ++ post) st3 f2 Hg').
+    + split; cbn [st3 st_imp set_cursor p_tokens p_cursor].
+      * rewrite app_nil_r, <- !app_assoc. reflexivity.
+      * lia.
+    + exact Hfar2.
+    + cbn [st3 st_imp set_cursor p_snips st2 st1 st_with]. exact Hsn.
+    + cbn [st3 st_imp set_cursor p_imports st2 st1 st_with]. lia.
+    + unfold f1 in Ef1. lia.
+Qed.
+
+(* a server block whose directives run into such a chain: the parse reports the import-cycle error
+   (never PFuel), whatever the bound maxi, the length of the cycle, the directive lines in front of
+   each import and the tokens after it *)
+Theorem parse_cycle_error : closed_chain -> forall id0 entry k ks lb post fuel,
+  graph id0 = Some entry ->
+  keys_ok env k ks = true -> is_snippet (map (key_of env) (k :: ks)) = false -> t_text lb = LBRACE ->
+  Forall far post ->
+  (S (N.to_nat maxi) * (L + 2) + L + length ks + 3 <= fuel)%nat ->
+  parse_tokens env maxi globs files fuel (k :: ks ++ lb :: node_toks entry ++ post) = PErr ECycle.
+Proof.
+  intros Hclosed id0 entry k ks lb post fuel Hg Hkeys Hsn Hlb Hfar Hfuel.
+  unfold parse_tokens. destruct fuel as [|f]; [lia|]. cbn [parse_all].
+  set (T := k :: ks ++ lb :: node_toks entry ++ post).
+  assert (Hend : at_end (init_st T) [] T) by (split; reflexivity).
+  destruct (p_next_end2 _ _ _ _ Hend) as [Hn Hpos]. rewrite Hn. cbn [negb].
+  set (st1 := set_cursor (init_st T) (p_cursor (init_st T) + 1)) in *.
+  rewrite parse_one_unfold by (cbn; discriminate).
+  assert (Hend0 : at_end (reset_block st1) ([] ++ [k]) (ks ++ lb :: node_toks entry ++ post)) by (split; reflexivity).
+  rewrite (addr_ok env maxi globs files _ _ _ _ _ (S f) _ false Hend0 Hkeys Hlb ltac:(lia)).
+  cbn [st_keys p_eof reset_block st1 set_cursor init_st p_keys app]. rewrite Hsn.
+  match goal with |- context [block_contents _ _ _ _ _ ?s] => set (st2 := s) end.
+  assert (Hpos2 : at_pos st2 (k :: ks) lb (node_toks entry ++ post)).
+  { split; cbn [st2 p_tokens p_cursor app]; [reflexivity|reflexivity]. }
+  unfold block_contents. rewrite (pval_pos _ _ _ _ Hpos2), Hlb. change (beq LBRACE LBRACE) with true. cbn iota.
+  rewrite (chain_directives Hclosed (N.to_nat maxi) id0 entry ((k :: ks) ++ [lb]) post st2 (S f) Hg
+             (proj2 (at_end_pos _ _ _ _) Hpos2) Hfar eq_refl ltac:(cbn; lia) ltac:(lia)).
+  reflexivity.
+Qed.
+End Chain.
+End Imports.
+
+(* a concrete chain: the main block imports c.conf, which imports itself *)
+Module CycleExample.
+Local Open Scope string_scope.
+Definition tk (f : N) (l : Z) (s : string) : token := {| t_file := f; t_line := l; t_text := bs s |}.
+Definition entry : node :=
+  {| n_lines := [(tk 0 2 "gzip", [])]; n_imp := tk 0 3 "import"; n_arg := tk 0 3 "c.conf"; n_tail := [];
+     n_pat := bs "c.conf"; n_next := 1 |}.
+Definition node1 : node :=
+  {| n_lines := [(tk 1 1 "dir1", [tk 1 1 "x"])]; n_imp := tk 1 2 "import"; n_arg := tk 1 2 "c.conf";
+     n_tail := [tk 1 3 "dir2"; tk 1 3 "after"]; n_pat := bs "c.conf"; n_next := 1 |}.
+Definition graph (id : N) : option node :=
+  if id =? 0 then Some entry else if id =? 1 then Some node1 else None.
+Definition files : list (N * option (list token)) := [(1, Some (node_toks node1))].
+Definition globs : list ((N * bytes) * list N) := [((0, bs "c.conf"), [1]); ((1, bs "c.conf"), [1])].
+Definition rb : token := tk 0 4 "}".
+
+Ltac far_tac :=
+  let i := fresh "i" in let n := fresh "n" in let Hi := fresh "Hi" in
+  intros i n Hi; unfold graph in Hi;
+  destruct (i =? 0); [injection Hi as <-; reflexivity|];
+  destruct (i =? 1); [injection Hi as <-; reflexivity|discriminate].
+
+Lemma chain_closed : closed_chain [] globs files graph 2 .
+Proof.
+  intros id nd H. unfold graph in H.
+  destruct (id =? 0); [injection H as <-|destruct (id =? 1); [injection H as <-|discriminate]].
+  all: unfold chain_node.
+  all: split; [vm_compute; reflexivity|]; split; [reflexivity|]; split; [vm_compute; reflexivity|];
+       split; [vm_compute; reflexivity|]; split; [discriminate|]; split; [repeat constructor; far_tac|];
+       split; [vm_compute; reflexivity|]; split; [vm_compute; reflexivity|]; split; [vm_compute; lia|];
+       exists node1; split; reflexivity.
+Qed.
+Lemma rb_far : Forall (far graph) [rb].
+Proof. repeat constructor; far_tac. Qed.
+(* the tokens are those of the texts *)
+Lemma texts :
+  lex (bs "a.com {
+gzip
+import c.conf
+}
+") = tk 0 1 "a.com" :: [] ++ tk 0 1 "{" :: node_toks entry ++ [rb] /\
+  retag 1 (lex (bs "dir1 x
+import c.conf
+dir2 after
+")) = node_toks node1.
+Proof. split; vm_compute; reflexivity. Qed.
+End CycleExample.
+
+(* ================= environment expansion: one pass, no rescanning ================= *)
+Transparent renv.
+Lemma index_sub_from_spec : forall s sub i n, index_sub_from s sub i = Some n ->
+  exists k, n = (i + k)%nat /\ (k <= length s)%nat /\ has_prefix (skipn k s) sub = true.
+Proof.
+  induction s as [|c r IH]; intros sub i n H; cbn [index_sub_from] in H.
+  - destruct (has_prefix [] sub) eqn:E; [|discriminate]. injection H as <-. exists 0%nat. cbn. repeat split; [lia|lia|exact E].
+  - destruct (has_prefix (c :: r) sub) eqn:E.
+    + injection H as <-. exists 0%nat. repeat split; [lia|cbn; lia|exact E].
+    + apply IH in H as (k & -> & Hk & Hp). exists (S k). repeat split; [lia|cbn; lia|exact Hp].
+Qed.
+
+(* replace_refs only ever appends to [done]: whatever has been produced (including substituted
+   values) is a prefix of the result and is never looked at again *)
+Lemma replace_refs_prefix : forall fuel env done s rs re,
+  exists tl, replace_refs fuel env done s rs re = done ++ tl.
+Proof.
+  induction fuel as [|f IH]; intros env done s rs re; cbn [replace_refs]; [eexists; reflexivity|].
+  destruct (index_sub s rs) as [i|]; [|eexists; reflexivity].
+  destruct (index_sub (skipn i s) re) as [e0|]; [|eexists; reflexivity].
+  destruct (Nat.ltb (length rs) e0); [|eexists; reflexivity].
+  destruct (IH env (done ++ firstn i s ++ getenv env (firstn (e0 - length rs) (skipn (i + length rs) s)))
+               (skipn (i + e0 + length re) s) rs re) as [tl Htl].
+  rewrite Htl, <- app_assoc. eexists; reflexivity.
+Qed.
+
+(* the output does not depend on what is already done: the scan state is the unread suffix only *)
+Lemma replace_refs_done : forall fuel env done s rs re,
+  replace_refs fuel env done s rs re = done ++ replace_refs fuel env [] s rs re.
+Proof.
+  induction fuel as [|f IH]; intros env done s rs re; cbn [replace_refs]; [reflexivity|].
+  destruct (index_sub s rs) as [i|]; [|reflexivity].
+  destruct (index_sub (skipn i s) re) as [e0|]; [|reflexivity].
+  destruct (Nat.ltb (length rs) e0); [|reflexivity].
+  rewrite IH. rewrite (IH env ([] ++ _)). cbn [app]. rewrite <- !app_assoc. reflexivity.
+Qed.
+
+(* one step of the pass: text before the reference, the VALUE VERBATIM, then the expansion of the
+   rest of the input only — the value is never scanned, even if it contains a reference *)
+Lemma replace_refs_step f env s rs re i e0 :
+  index_sub s rs = Some i -> index_sub (skipn i s) re = Some e0 -> Nat.ltb (length rs) e0 = true ->
+  replace_refs (S f) env [] s rs re =
+  firstn i s ++ getenv env (firstn (e0 - length rs) (skipn (i + length rs) s)) ++
+  replace_refs f env [] (skipn (i + e0 + length re) s) rs re.
+Proof.
+  intros H1 H2 H3. cbn [replace_refs]. rewrite H1, H2, H3. rewrite replace_refs_done. cbn [app].
+  rewrite <- app_assoc. reflexivity.
+Qed.
+
+(* termination of the pass: each step consumes at least one character, so the length of the input
+   is enough fuel: more fuel never changes the result *)
+Lemma skipn_length_lt {A} (s : list A) n : (0 < n)%nat -> s <> [] -> (length (skipn n s) < length s)%nat.
+Proof. intros Hn Hs. rewrite skipn_length. destruct s; [congruence|]. cbn [length]. lia. Qed.
+
+Lemma replace_refs_fuel : forall n f env done s rs re, (length s < n)%nat -> (n <= f)%nat -> re <> [] ->
+  replace_refs f env done s rs re = replace_refs n env done s rs re.
+Proof.
+  induction n as [|n IH]; intros f env done s rs re Hs Hf Hre; [lia|].
+  destruct f as [|f]; [lia|]. cbn [replace_refs].
+  destruct (index_sub s rs) as [i|] eqn:E1; [|reflexivity].
+  destruct (index_sub (skipn i s) re) as [e0|] eqn:E2; [|reflexivity].
+  destruct (Nat.ltb (length rs) e0) eqn:E3; [|reflexivity].
+  apply IH; [|lia|exact Hre].
+  apply Nat.ltb_lt in E3.
+  assert (length (skipn (i + e0 + length re) s) < length s)%nat; [|lia].
+  apply skipn_length_lt; [destruct re; [congruence|cbn; lia]|].
+  intros ->. unfold index_sub in E1. apply index_sub_from_spec in E1 as (k & -> & Hk & _). cbn in Hk.
+  assert (k = 0%nat) by lia. subst k. cbn in E2.
+  destruct re; [congruence|discriminate].
+Qed.
+
+(* ================= lexer: totality facts over ALL rune lists ================= *)
+Inductive subseq : list N -> list N -> Prop :=
+| ss_nil : subseq [] []
+| ss_skip x a b : subseq a b -> subseq a (x :: b)
+| ss_take x a b : subseq a b -> subseq (x :: a) (x :: b).
+
+Lemma subseq_nil_l b : subseq [] b.
+Proof. induction b; constructor; assumption. Qed.
+
+Definition texts (ts : list token) : list N := concat (map t_text ts).
+
+(* every character of every token text comes from the input, in input order: the lexer only drops
+   characters (separators, comments, quotes, the backslash of an escaped quote), it never invents,
+   duplicates or reorders one; the text accumulated so far is emitted first *)
+Lemma lex_go_subseq : forall inp line val tline c q e,
+  exists tl, texts (lex_go inp line val tline c q e) = rev val ++ tl /\
+             subseq tl ((if e then [BSL] else []) ++ inp).
+Proof.
+  induction inp as [|ch r IH]; intros line val tline c q e.
+  - cbn [lex_go]. destruct val as [|v0 vr].
+    + exists []. split; [reflexivity|]. apply subseq_nil_l.
+    + exists []. split; [cbn [texts map concat t_text]; rewrite !app_nil_r; reflexivity|apply subseq_nil_l].
+  - cbn [lex_go]. destruct q.
+    + (* quoted *)
+      destruct (negb e && (ch =? BSL)) eqn:E1.
+      { destruct e; [discriminate|]. destruct (IH line val tline c true true) as (tl & H1 & H2).
+        exists tl. split; [exact H1|]. cbn [app] in *.
+        apply andb_true_iff in E1 as [_ E1]. apply N.eqb_eq in E1. subst ch. exact H2. }
+      destruct (negb e && (ch =? QUOTE)) eqn:E2.
+      { destruct e; [discriminate|]. destruct (IH line [] 0%Z false false false) as (tl & H1 & H2).
+        cbn [rev app] in H1. exists tl. cbn [texts map concat t_text]. fold (texts (lex_go r line [] 0%Z false false false)).
+        rewrite H1. split; [reflexivity|]. cbn [app] in *. apply ss_skip. exact H2. }
+      destruct e.
+      * cbn [andb]. destruct (ch =? QUOTE) eqn:Eq.
+        -- cbn [negb]. match goal with |- context [lex_go r ?l ?v tline c true false] => destruct (IH l v tline c true false) as (tl & H1 & H2) end.
+           cbn [rev] in H1. rewrite <- app_assoc in H1. cbn [app] in H1, H2 |- *.
+           exists (ch :: tl). split; [exact H1|]. apply ss_skip, ss_take, H2.
+        -- cbn [negb]. match goal with |- context [lex_go r ?l ?v tline c true false] => destruct (IH l v tline c true false) as (tl & H1 & H2) end.
+           cbn [rev] in H1. rewrite <- !app_assoc in H1. cbn [app] in H1, H2 |- *.
+           exists (BSL :: ch :: tl). split; [exact H1|]. apply ss_take, ss_take, H2.
+      * cbn [andb]. match goal with |- context [lex_go r ?l ?v tline c true false] => destruct (IH l v tline c true false) as (tl & H1 & H2) end.
+        cbn [rev] in H1. rewrite <- app_assoc in H1. cbn [app] in H1, H2 |- *.
+        exists (ch :: tl). split; [exact H1|]. apply ss_take, H2.
+    + (* not quoted: [e] is false on every path that reaches here from [lex]; in general the
+         pending backslash is simply dropped *)
+      assert (Hdrop : forall tl, subseq tl r -> subseq tl ((if e then [BSL] else []) ++ ch :: r)).
+      { intros tl H. destruct e; cbn [app]; repeat apply ss_skip; exact H. }
+      assert (Htake : forall tl, subseq tl r -> subseq (ch :: tl) ((if e then [BSL] else []) ++ ch :: r)).
+      { intros tl H. destruct e; cbn [app]; [apply ss_skip|]; apply ss_take; exact H. }
+      destruct (is_space ch).
+      * destruct (ch =? CR).
+        { destruct (IH line val tline c false false) as (tl & H1 & H2). exists tl. split; [exact H1|]. apply Hdrop, H2. }
+        destruct val as [|v0 vr].
+        { match goal with |- context [lex_go r ?l [] tline ?cc false false] => destruct (IH l [] tline cc false false) as (tl & H1 & H2) end.
+          exists tl. split; [exact H1|]. apply Hdrop, H2. }
+        match goal with |- context [lex_go r ?l [] 0%Z false false false] => destruct (IH l [] 0%Z false false false) as (tl & H1 & H2) end.
+        cbn [rev app] in H1. exists tl. cbn [texts map concat t_text].
+        match goal with |- context [concat (map t_text ?x)] => change (concat (map t_text x)) with (texts x) end.
+        rewrite H1. split; [reflexivity|]. apply Hdrop, H2.
+      * destruct (c || (ch =? HASH)).
+        { destruct (IH line val tline true false false) as (tl & H1 & H2). exists tl. split; [exact H1|]. apply Hdrop, H2. }
+        destruct val as [|v0 vr].
+        { destruct (ch =? QUOTE).
+          - destruct (IH line [] line false true false) as (tl & H1 & H2). exists tl. split; [exact H1|]. apply Hdrop, H2.
+          - destruct (IH line [ch] line false false false) as (tl & H1 & H2). cbn [rev app] in H1.
+            exists (ch :: tl). split; [exact H1|]. apply Htake, H2. }
+        destruct (IH line (ch :: v0 :: vr) tline false false false) as (tl & H1 & H2).
+        cbn [rev] in H1 |- *. rewrite <- !app_assoc in H1. cbn [app] in H1.
+        exists (ch :: tl). split; [rewrite <- app_assoc; exact H1|]. apply Htake, H2.
+Qed.
+
+Theorem lex_subseq inp : subseq (texts (lex inp)) inp.
+Proof.
+  unfold lex. destruct inp as [|c r]; [constructor|].
+  destruct (c =? BOM).
+  - destruct (lex_go_subseq r 1%Z [] 0%Z false false false) as (tl & H1 & H2).
+    cbn [rev app] in H1, H2. rewrite H1. apply ss_skip, H2.
+  - destruct (lex_go_subseq (c :: r) 1%Z [] 0%Z false false false) as (tl & H1 & H2).
+    cbn [rev app] in H1, H2. rewrite H1. exact H2.
+Qed.
+
+Lemma subseq_length a b : subseq a b -> (length a <= length b)%nat.
+Proof. induction 1; cbn; lia. Qed.
+(* consequently the lexer consumes its whole input and its output is bounded by it *)
+Corollary lex_texts_length inp : (length (texts (lex inp)) <= length inp)%nat.
+Proof. apply subseq_length, lex_subseq. Qed.
+
+(* text projection of a parse result *)
+Definition texts_of (r : pres (list block)) : option (list (list bytes * list (bytes * list bytes))) :=
+  match r with
+  | POk bl => Some (map (fun b => (fst b, map (fun g => (fst g, map t_text (snd g))) (snd b))) bl)
+  | _ => None
+  end.
